@@ -36,6 +36,24 @@ class Net(object):
         return True
 
 
+_MODEXPR = {}
+def module_of(side):
+    """the origin marker a side gets: the right-hand side of `self._module = ...` in Session.__init__ of the working
+    tree, evaluated with the environment of that side ($RP_PILOT_ID is set on a pilot, not on the client)"""
+    import ast
+    if 'code' not in _MODEXPR:
+        src = open(common.SRC + '/session.py').read()
+        tree = ast.parse(src)
+        rhs = [n.value for n in ast.walk(tree) if isinstance(n, ast.Assign) and len(n.targets) == 1
+               and isinstance(n.targets[0], ast.Attribute) and n.targets[0].attr == '_module']
+        _MODEXPR['code'] = compile(ast.Expression(rhs[0]), 'session.py:_module', 'eval') if len(rhs) == 1 else None
+    if _MODEXPR['code'] is None:
+        return mod_name(side)
+    class _Os(object):
+        environ = {} if side == 0 else {'RP_PILOT_ID': mod_name(side)}
+    return eval(_MODEXPR['code'], {'os': _Os})
+
+
 def build(rp, nsides):
     import radical.utils as ru
     from radical.pilot import constants as rpc
@@ -57,7 +75,7 @@ def build(rp, nsides):
     try:
         for s in range(nsides):
             sess = object.__new__(rp.Session)
-            sess._module  = mod_name(s)
+            sess._module  = module_of(s)
             sess._role    = sess._PRIMARY if s == 0 else sess._AGENT_0
             sess._log     = rpload.NullLog()
             sess._prof    = rpload.NullLog()
@@ -84,7 +102,7 @@ NAMES = ['client', 'pilot.1', 'pilot.10', 'pilot.100', 'pilot', 'pilot.1.a', 'p'
 
 def mod_id(m):
     if m is None: return None
-    return NAMES.index(m)
+    return NAMES.index(m) if m in NAMES else 99        # 99: a marker that is no side's name
 
 
 def mod_name(i):
